@@ -131,7 +131,7 @@ sp_ctrsv(char *uplo, char *trans, char *diag, SuperMatrix *L,
 	
 	if ( lsame_(uplo, "L") ) {
 	    /* Form x := inv(L)*x */
-    	    if ( L->nrow == 0 ) return 0; /* Quick return */
+    	    if ( L->nrow == 0 ) { SUPERLU_FREE(work); return 0; } /* Quick return */
 	    
 	    for (k = 0; k <= nsuper; k++) {
 		fsupc = L_FST_SUPC(k);
@@ -191,7 +191,7 @@ sp_ctrsv(char *uplo, char *trans, char *diag, SuperMatrix *L,
 	} else {
 	    /* Form x := inv(U)*x */
 	    
-	    if ( U->nrow == 0 ) return 0; /* Quick return */
+	    if ( U->nrow == 0 ) { SUPERLU_FREE(work); return 0; } /* Quick return */
 	    
 	    for (k = nsuper; k >= 0; k--) {
 	    	fsupc = L_FST_SUPC(k);
@@ -242,7 +242,7 @@ sp_ctrsv(char *uplo, char *trans, char *diag, SuperMatrix *L,
 	
 	if ( lsame_(uplo, "L") ) {
 	    /* Form x := inv(L')*x */
-    	    if ( L->nrow == 0 ) return 0; /* Quick return */
+    	    if ( L->nrow == 0 ) { SUPERLU_FREE(work); return 0; } /* Quick return */
 	    
 	    for (k = Lstore->nsuper; k >= 0; --k) {
 	    	fsupc = L_FST_SUPC(k);
@@ -280,7 +280,7 @@ sp_ctrsv(char *uplo, char *trans, char *diag, SuperMatrix *L,
 	    }
 	} else {
 	    /* Form x := inv(U')*x */
-	    if ( U->nrow == 0 ) return 0; /* Quick return */
+	    if ( U->nrow == 0 ) { SUPERLU_FREE(work); return 0; } /* Quick return */
 	    
 	    for (k = 0; k <= nsuper; k++) {
 	    	fsupc = L_FST_SUPC(k);
@@ -320,7 +320,7 @@ sp_ctrsv(char *uplo, char *trans, char *diag, SuperMatrix *L,
 	
 	if ( lsame_(uplo, "L") ) {
 	    /* Form x := conj(inv(L'))*x */
-    	    if ( L->nrow == 0 ) return 0; /* Quick return */
+    	    if ( L->nrow == 0 ) { SUPERLU_FREE(work); return 0; } /* Quick return */
 	    
 	    for (k = Lstore->nsuper; k >= 0; --k) {
 	    	fsupc = L_FST_SUPC(k);
@@ -359,7 +359,7 @@ sp_ctrsv(char *uplo, char *trans, char *diag, SuperMatrix *L,
 	    }
 	} else {
 	    /* Form x := conj(inv(U'))*x */
-	    if ( U->nrow == 0 ) return 0; /* Quick return */
+	    if ( U->nrow == 0 ) { SUPERLU_FREE(work); return 0; } /* Quick return */
 	    
 	    for (k = 0; k <= Lstore->nsuper; k++) {
 	    	fsupc = L_FST_SUPC(k);
